@@ -4,6 +4,7 @@ import CovfieModel.Model.RImpRef
 import CovfieModel.Model.OwnScript
 import CovfieModel.Model.IOScript
 import CovfieModel.Model.BinScript
+import CovfieModel.Model.Sentences
 /-! Driver for the translated kernels (DESIGN.md §11.6).
   print                         -> one line `K <name> <s-expression>` per reference kernel (the terms the theorems are about)
   ref <name> | prog <sexp>      -> selects the program the following `run` lines execute
@@ -22,7 +23,8 @@ def step (cur : Option Stmt) (line : String) : Option Stmt × List String :=
       Covfie.RImp.Ref.all.map (fun (n, p) => s!"K {n} {Covfie.RImp.Ref.text n p}") ++
       Covfie.Heap.Ref.all.map (fun (n, t) => s!"K {n} {t}") ++
       Covfie.IO.Ref.all.map (fun (n, p) => s!"K {n} {p.toSexp}") ++
-      Covfie.IO.BRef.all.map (fun (n, t) => s!"K {n} {t}"))
+      Covfie.IO.BRef.all.map (fun (n, t) => s!"K {n} {t}") ++
+      Covfie.Sentences.all.map (fun (n, _, t) => s!"K {n} {t}"))
   | ["ref", n] =>
     match Ref.all.find? (·.1 = n) with
     | some (_, p) => (some p, ["prog-ok"])
